@@ -505,6 +505,34 @@ def projection_complex_parts(m, elem, rng, boundary=True):
                    'elem': type(elem).__name__, 'cells': sub.tolist(), 'N': int(whole.N)}
 
 
+def projection_subset_argument(m, elem, rng, facet=False):
+    """an ARBITRARY function of the space (not supported on the subset) projected through the subset ARGUMENT of an
+    UNRESTRICTED basis: CellBasis over the whole mesh with project(f, elements=S), FacetBasis over the whole boundary with
+    project(f, facets=part).  The property: the result is the function on the DOFs of the subset (zero elsewhere)."""
+    from skfem import Basis, FacetBasis
+    whole = Basis(m, elem)
+    x = rng.uniform(-1, 1, whole.N)
+    if facet:
+        bf = m.boundary_facets()
+        k = int(rng.integers(1, max(2, len(bf))))                 # a proper part of the boundary
+        F = np.sort(bf[rng.permutation(len(bf))[:k]])
+        fb = FacetBasis(m, elem)                                   # the whole boundary
+        I = whole.get_dofs(facets=F).flatten()
+        y = fb.project(fb.interpolate(x), facets=F)
+        sub = {'facets': F.tolist()}
+    else:
+        nt = m.t.shape[1]
+        k = int(rng.integers(1, max(2, nt)))                       # a proper subset of the cells
+        S = np.sort(rng.permutation(nt)[:k])
+        I = whole.get_dofs(elements=S).flatten()
+        y = whole.project(whole.interpolate(x), elements=S)
+        sub = {'elements': S.tolist()}
+    want = np.zeros(whole.N)
+    want[I] = x[I]
+    return relerr(np.asarray(y), want), dict(sub, what=('boundary part' if facet else 'subdomain') + ' through the subset argument of an unrestricted basis',
+                                             elem=type(elem).__name__, N=int(whole.N), x=x.tolist())
+
+
 def projection_subdomain(m, elem, rng, via_argument=False, intorder=None):
     """basis restricted to a cell subset (tind) — or whole basis with project(elements=...) and a function supported on I"""
     from skfem import Basis
